@@ -901,6 +901,17 @@ class Interp:
         raise Undecided(f"call of non-callable {fn!r} at line {getattr(node, 'lineno', '?')}")
 
     def ex_ListComp(self, e, env):
+        if len(e.generators) == 1 and not e.generators[0].ifs:
+            it = self.ev(e.generators[0].iter, env)
+            if hasattr(it, "pyvc_comprehension"):
+                g = e.generators[0]
+
+                def elt_fn(item):
+                    sub = Env(env)
+                    self.assign(g.target, item, sub)
+                    return self.ev(e.elt, sub)
+
+                return it.pyvc_comprehension(self, elt_fn)
         return list(self.comp(e.elt, e.generators, env))
 
     def ex_SetComp(self, e, env):
